@@ -684,10 +684,129 @@ def translate(group):
             parts.append(textwrap.indent(pretty(closed), "    ") + ".")
         parts.append("")
         defined.add(name)
+    if group == 2:
+        parts += translate_init()
     return "\n".join(parts)
+
+# ---------------------------------------------------------------- __getstate__ / __setstate__ (PySrcPickle.v)
+OBJ_FIELDS = ["network", "symbolic", "petri_net", "nfvs", "dag", "node_indices", "config"]
+
+def translate_pickle():
+    """SuccessionDiagram.__getstate__ / __setstate__ over an object record whose fields have an abstract value type; the engine
+    functions to_aeon, BooleanNetwork.from_aeon, cleanup_network, AsynchronousGraph are parameters (PySrcPickleFacts.v states what it
+    assumes of them)"""
+    mod = ast.parse(open(os.path.join(REPO, SRC)).read())
+    cls = [n for n in mod.body if isinstance(n, ast.ClassDef) and n.name == "SuccessionDiagram"][0]
+    def method(name, params):
+        ms = [n for n in cls.body if isinstance(n, ast.FunctionDef) and n.name == name]
+        if len(ms) != 1: raise Unsupported(f"method {name} not found exactly once")
+        m = ms[0]
+        if [x.arg for x in m.args.args] != params or m.args.defaults or m.decorator_list or m.args.vararg or m.args.kwarg:
+            raise Unsupported(f"{name}: signature changed")
+        return [b for b in m.body if not (isinstance(b, ast.Expr) and isinstance(b.value, ast.Constant) and isinstance(b.value.value, str))]
+    def self_attr(e):
+        return e.attr if isinstance(e, ast.Attribute) and is_self(e.value) and e.attr in OBJ_FIELDS else None
+    def value(e, reading_state):
+        a = self_attr(e)
+        if a: return f"(o_{a} self_)", False
+        if isinstance(e, ast.Call) and isinstance(e.func, ast.Attribute) and e.func.attr == "to_aeon" and not e.args and not e.keywords:
+            t, r = value(e.func.value, reading_state)
+            return f"(to_aeon {t})", r
+        if reading_state and isinstance(e, ast.Subscript) and isinstance(e.value, ast.Name) and e.value.id == "state" \
+                and isinstance(e.slice, ast.Constant) and isinstance(e.slice.value, str):
+            return f'(st_get state "{e.slice.value}")', True                      # KeyError on a missing key
+        if isinstance(e, ast.Call) and isinstance(e.func, ast.Name) and e.func.id in ("cleanup_network", "AsynchronousGraph") and len(e.args) == 1 and not e.keywords:
+            t, r = value(e.args[0], reading_state)
+            fn = {"cleanup_network": "cleanup_network", "AsynchronousGraph": "async_graph"}[e.func.id]
+            return (f"(omap {fn} {t})", True) if r else (f"({fn} {t})", False)
+        if isinstance(e, ast.Call) and isinstance(e.func, ast.Attribute) and e.func.attr == "from_aeon" and isinstance(e.func.value, ast.Name) \
+                and e.func.value.id == "BooleanNetwork" and len(e.args) == 1 and not e.keywords:
+            t, r = value(e.args[0], reading_state)
+            return (f"(omap from_aeon {t})", True) if r else (f"(from_aeon {t})", False)
+        fail(e, "unsupported expression in __getstate__ / __setstate__")
+    # __getstate__
+    body = method("__getstate__", ["self"])
+    if len(body) != 1 or not isinstance(body[0], ast.Return) or not isinstance(body[0].value, ast.Dict): raise Unsupported("__getstate__: body is not `return {...}`")
+    items = []
+    for k, v in zip(body[0].value.keys, body[0].value.values):
+        if not (isinstance(k, ast.Constant) and isinstance(k.value, str)): fail(body[0], "__getstate__ key")
+        t, r = value(v, False)
+        if r: fail(v, "raising value")
+        items.append(f'("{k.value}", {t})')
+    getstate = "[" + "; ".join(items) + "]"
+    # __setstate__
+    body = method("__setstate__", ["self", "state"])
+    term = "Some self_"
+    lets = []
+    for st in body:
+        if not (isinstance(st, ast.Assign) and len(st.targets) == 1 and self_attr(st.targets[0])): fail(st, "__setstate__ statement")
+        a = self_attr(st.targets[0])
+        t, r = value(st.value, True)
+        lets.append((a, t, r))
+    for a, t, r in reversed(lets):
+        if r: term = f"(match {t} with Some v_ => let self_ := set_{a} self_ v_ in {term} | None => None end)"
+        else: term = f"(let self_ := set_{a} self_ {t} in {term})"
+    parts = ["(* PySrcPickle.v -- GENERATED by tools/py2coq_core.py from SuccessionDiagram.__getstate__ / __setstate__ in the current",
+             "   source of /repo/biobalm/succession_diagram.py; do not edit.  Embedding: PyLibPickle.v.  PySrcPickleFacts.v proves the round trip. *)",
+             "From Coq Require Import List String.", "Import ListNotations.", "Open Scope string_scope.", "From BB Require Import PyLib PyLibPickle.", "",
+             "Section Pickle.", "Variable V : Type.", "Variables to_aeon from_aeon cleanup_network async_graph : V -> V.", "",
+             f"(* {SRC}: def __getstate__(self) *)", "Definition py_getstate (self_ : pobj V) : list (string * V) :=", "  " + getstate + ".", "",
+             f"(* {SRC}: def __setstate__(self, state) *)", "Definition py_setstate (self_ : pobj V) (state : list (string * V)) : option (pobj V) :=",
+             textwrap.indent(pretty(term), "  ") + ".", "", "End Pickle.", ""]
+    return "\n".join(parts)
+
+def translate_init():
+    """SuccessionDiagram.__init__: the attributes that are the environment of the model (config, network, symbolic, petri_net, nfvs) must be
+    assigned from exactly the expected expressions; self.dag / self.node_indices start empty; then the root is created by _ensure_node(None, {})"""
+    mod = ast.parse(open(os.path.join(REPO, SRC)).read())
+    cls = [n for n in mod.body if isinstance(n, ast.ClassDef) and n.name == "SuccessionDiagram"][0]
+    ms = [n for n in cls.body if isinstance(n, ast.FunctionDef) and n.name == "__init__"]
+    if len(ms) != 1: raise Unsupported("__init__ not found exactly once")
+    m = ms[0]
+    if [x.arg for x in m.args.args] != ["self", "network", "config"] or len(m.args.defaults) != 1 or not const(m.args.defaults[0], None) or m.decorator_list:
+        raise Unsupported("__init__: signature changed")
+    ENV = {"config": "Name(id='config', ctx=Load())",
+           "network": "Call(func=Name(id='cleanup_network', ctx=Load()), args=[Name(id='network', ctx=Load())], keywords=[])",
+           "symbolic": "Call(func=Name(id='AsynchronousGraph', ctx=Load()), args=[Attribute(value=Name(id='self', ctx=Load()), attr='network', ctx=Load())], keywords=[])",
+           "petri_net": "Call(func=Name(id='network_to_petrinet', ctx=Load()), args=[Name(id='network', ctx=Load())], keywords=[])",
+           "nfvs": "Constant(value=None)"}
+    seen, dag_empty, idx_empty, term = set(), False, False, None
+    dummy = Fn(dict(name="__init__", args=[], ret="unit", locs={}, loopvars={}, alias=[]))
+    for st in m.body:
+        if isinstance(st, ast.Expr) and isinstance(st.value, ast.Constant) and isinstance(st.value.value, str): continue          # attribute docstrings
+        if dummy.is_debug_block(st): continue
+        if term is not None: fail(st, "statement after the creation of the root")
+        if isinstance(st, ast.If) and not st.orelse and ast.dump(st.test) == "Compare(left=Name(id='config', ctx=Load()), ops=[Is()], comparators=[Constant(value=None)])" \
+                and len(st.body) == 1 and ast.dump(st.body[0]) == "Assign(targets=[Name(id='config', ctx=Store())], value=Call(func=Attribute(value=Name(id='SuccessionDiagram', ctx=Load()), attr='default_config', ctx=Load()), args=[], keywords=[]))":
+            continue                                           # the default configuration: the model's cfg is the configuration in force
+        tgt, val = (st.targets[0], st.value) if isinstance(st, ast.Assign) and len(st.targets) == 1 else ((st.target, st.value) if isinstance(st, ast.AnnAssign) else (None, None))
+        if tgt is not None and isinstance(tgt, ast.Attribute) and is_self(tgt.value):
+            a = tgt.attr
+            if a in ENV:
+                if ast.dump(val) != ENV[a] or a in seen: fail(st, f"self.{a} is not assigned as expected")
+                seen.add(a); continue
+            if a == "dag" and ast.dump(val) == "Call(func=Attribute(value=Name(id='nx', ctx=Load()), attr='DiGraph', ctx=Load()), args=[], keywords=[])":
+                dag_empty = True; continue
+            if a == "node_indices" and isinstance(val, ast.Dict) and not val.keys:
+                idx_empty = True; continue
+            fail(st, "attribute assignment")
+        if isinstance(st, ast.Expr) and ast.dump(st.value) == "Call(func=Attribute(value=Name(id='self', ctx=Load()), attr='_ensure_node', ctx=Load()), args=[Constant(value=None), Dict(keys=[], values=[])], keywords=[])":
+            if not (dag_empty and idx_empty and seen == set(ENV)): fail(st, "root created before the object is set up")
+            term = ("(let w_ := {| p_sd := {| sd_nodes := []; sd_edges := [] |}; p_idx := [] |} in "
+                    "c_call (py_ensure_node fuel N cfg pnc w_ (@None nat) (top_space (nvars N))) (fun w_ _ => CNext w_ Datatypes.tt))")
+            continue
+        fail(st, "unsupported statement in __init__")
+    if term is None: raise Unsupported("__init__: the root node is never created")
+    return ["(* biobalm/succession_diagram.py: def __init__(self, network, config): the empty space {} is top_space *)",
+            "Definition py_init (fuel : nat) (N : net) (cfg : config) (pnc : nat -> bool) : cflow unit unit :=", "  " + term + ".", ""]
 
 def main(argv):
     texts, failed = [], []
+    try:
+        texts.append((os.path.join(OUTDIR, "PySrcPickle.v"), translate_pickle()))
+    except Unsupported as e:
+        print(f"py2coq_core: FAILED PySrcPickle.v: UNSUPPORTED: {e}", file=sys.stderr)
+        failed.append("PySrcPickle.v")
     for g, f in ((1, "PySrcCore.v"), (2, "PySrcCore2.v")):
         try:
             texts.append((os.path.join(OUTDIR, f), translate(g)))
